@@ -41,7 +41,7 @@ var c14Targets = []c14Target{{"es2015", api.ES2015, 2015}, {"es2016", api.ES2016
 var passthroughYear = map[string]int{"bigint": 2020, "dynamic-import": 2020, "import-meta": 2020}
 var passthroughWarning = map[string]string{"bigint": "Big integer literals are not available", "dynamic-import": "import()", "import-meta": "\"import.meta\" is not available"}
 
-type c14Stats struct{ builds, gated, errorsReported, overrideChecks, passthroughSeen int64 }
+type c14Stats struct{ builds, gated, errorsReported, overrideChecks, passthroughSeen, partsAfterError int64 }
 
 func c14Check(r *Run, pool *Pool, st *c14Stats, src string, what string, tgt c14Target, out string, goal string, warnings []api.Message, replay map[string]interface{}) {
 	g, err := pool.Gate(out, goal, tgt.year)
@@ -105,8 +105,9 @@ func checkC14(r *Run) {
 	rng := newRng(r.Seed, "c14")
 
 	type unit struct {
-		src  string
-		what string
+		src   string
+		what  string
+		parts []string // the unit's cases one by one: compiled separately when the unit as a whole is refused with an error
 	}
 	var units []unit
 	feat := featgenCases()
@@ -115,7 +116,11 @@ func checkC14(r *Run) {
 		if j > len(feat) {
 			j = len(feat)
 		}
-		units = append(units, unit{featSource(feat[i:j]), "featgen"})
+		u := unit{src: featSource(feat[i:j]), what: "featgen"}
+		for k := i; k < j; k++ {
+			u.parts = append(u.parts, featSource(feat[k:k+1]))
+		}
+		units = append(units, u)
 	}
 	n := 0
 	frac := r.pick(6, 1)
@@ -126,7 +131,7 @@ func checkC14(r *Run) {
 		if j > len(ptab) {
 			j = len(ptab)
 		}
-		units = append(units, unit{strictRef(packSource(ptab[i:j])), "paren-table"})
+		units = append(units, unit{src: strictRef(packSource(ptab[i:j])), what: "paren-table"})
 	}
 	m := 0
 	frac2 := r.pick(20, 2)
@@ -136,11 +141,11 @@ func checkC14(r *Run) {
 		if j > len(mtab) {
 			j = len(mtab)
 		}
-		units = append(units, unit{packSource(mtab[i:j]), "minify-table"})
+		units = append(units, unit{src: packSource(mtab[i:j]), what: "minify-table"})
 	}
 	for i := 0; i < r.pick(600, 6000); i++ {
 		g := newProgen(newRng(r.Seed, fmt.Sprint("c14prog", i)), progenOpts{})
-		units = append(units, unit{g.Program(10 + i%15), "progen"})
+		units = append(units, unit{src: g.Program(10 + i%15), what: "progen"})
 	}
 	type job struct {
 		u      unit
@@ -159,16 +164,6 @@ func checkC14(r *Run) {
 	parallel(len(jobs), pool.Size(), func(i int) {
 		jb := jobs[i]
 		opts := api.TransformOptions{Loader: api.LoaderJS, Target: jb.tgt.t, Format: jb.format, MinifyWhitespace: jb.minify&1 != 0, MinifySyntax: jb.minify&2 != 0, MinifyIdentifiers: jb.minify&4 != 0}
-		res, pan := transformSafe(jb.u.src, opts)
-		atomic.AddInt64(&st.builds, 1)
-		r.Eval(1)
-		if pan != "" {
-			return
-		}
-		if len(res.Errors) > 0 {
-			atomic.AddInt64(&st.errorsReported, 1)
-			return
-		}
 		goal := "script"
 		if jb.format == api.FormatESModule {
 			goal = "module"
@@ -176,8 +171,30 @@ func checkC14(r *Run) {
 			goal = "cjs"
 		}
 		what := fmt.Sprintf("%s,minify=%d,format=%s", jb.u.what, jb.minify, formatName(jb.format))
-		r.Nontrivial(fmt.Sprint(hash64(jb.u.src), jb.tgt.name, jb.minify, jb.format))
-		c14Check(r, pool, &st, jb.u.src, jb.u.what, jb.tgt, string(res.Code), goal, res.Warnings, map[string]interface{}{"input": jb.u.src, "target": jb.tgt.name, "options": what})
+		one := func(src string) bool {
+			res, pan := transformSafe(src, opts)
+			atomic.AddInt64(&st.builds, 1)
+			r.Eval(1)
+			if pan != "" {
+				return true
+			}
+			if len(res.Errors) > 0 {
+				atomic.AddInt64(&st.errorsReported, 1)
+				return false
+			}
+			r.Nontrivial(fmt.Sprint(hash64(src), jb.tgt.name, jb.minify, jb.format))
+			c14Check(r, pool, &st, src, jb.u.what, jb.tgt, string(res.Code), goal, res.Warnings, map[string]interface{}{"input": src, "target": jb.tgt.name, "options": what})
+			return true
+		}
+		if !one(jb.u.src) {
+			// one case that the target cannot express makes esbuild refuse the whole unit; the other cases
+			// of the unit are then compiled one by one so that an error here cannot hide a missing error there
+			for _, p := range jb.u.parts {
+				if one(p) {
+					atomic.AddInt64(&st.partsAfterError, 1)
+				}
+			}
+		}
 	})
 
 	// bundles: helpers and wrappers
@@ -190,7 +207,12 @@ func checkC14(r *Run) {
 		"/lazy.js":   "export default async function*() { yield* [await 1]; }; export const re = /(?<n>a)/su;",
 		"/data.json": `{"a": [1, 2, {"b": null}], "c d": "é"}`,
 	}
-	bundleJobs := 0
+	graphNoTLA := map[string]string{}
+	for k, v := range graph {
+		graphNoTLA[k] = strings.Replace(v, "await import(", "import(", 1)
+	}
+	bundleJobs, iifeJobs, bundleErrors := 0, 0, 0
+	bundleOK := map[string]int{}
 	for _, tgt := range c14Targets {
 		for _, format := range []api.Format{api.FormatESModule, api.FormatCommonJS, api.FormatIIFE} {
 			for _, minify := range []bool{false, true} {
@@ -199,9 +221,19 @@ func checkC14(r *Run) {
 						continue
 					}
 					bundleJobs++
+					g, globalName := graph, ""
+					if format != api.FormatESModule || tgt.year < 2022 {
+						// top-level await is an error in the wrapped formats whatever the target, and below ES2022 in every
+						// format: those bundles use the same graph without it
+						g = graphNoTLA
+					}
+					if format == api.FormatIIFE {
+						globalName = []string{"G", "My.lib.core", "this.app.api", "a[\"b-c\"].d", "import.meta.x.y"}[iifeJobs%5]
+						iifeJobs++
+					}
 					res, pan := buildSafe(api.BuildOptions{EntryPoints: []string{"/entry.js"}, Bundle: true, Write: false, Outdir: "/out", Format: format, Target: tgt.t, Splitting: splitting,
-						MinifyWhitespace: minify, MinifySyntax: minify, MinifyIdentifiers: minify, Plugins: []api.Plugin{memPlugin(graph)}, Platform: api.PlatformNode,
-						GlobalName: map[bool]string{true: []string{"G", "My.lib.core", "this.app.api", "a[\"b-c\"].d"}[bundleJobs%4], false: ""}[format == api.FormatIIFE]})
+						MinifyWhitespace: minify, MinifySyntax: minify, MinifyIdentifiers: minify, Plugins: []api.Plugin{memPlugin(g)}, Platform: api.PlatformNode,
+						GlobalName: globalName})
 					r.Eval(1)
 					atomic.AddInt64(&st.builds, 1)
 					if pan != "" {
@@ -209,8 +241,13 @@ func checkC14(r *Run) {
 					}
 					if len(res.Errors) > 0 {
 						atomic.AddInt64(&st.errorsReported, 1)
+						bundleErrors++
+						if os.Getenv("VERIF_ALL") != "" {
+							fmt.Printf("  bundle error (%s, %s): %s\n", tgt.name, formatName(format), res.Errors[0].Text)
+						}
 						continue
 					}
+					bundleOK[formatName(format)]++
 					goal := "module"
 					if format == api.FormatCommonJS {
 						goal = "cjs"
@@ -283,6 +320,14 @@ func checkC14(r *Run) {
 	}
 	sort.Strings(fl)
 	r.Extra("features_present_in_inputs", fl)
+	r.Count("cases_compiled_alone_after_their_unit_was_refused", int(st.partsAfterError))
+	r.Count("bundles_with_reported_errors_skipped", bundleErrors)
+	r.Extra("bundles_checked_by_format", bundleOK)
+	for _, f := range []string{"esm", "cjs", "iife"} {
+		if bundleOK[f] == 0 {
+			r.Inconclusive("no " + f + " bundle built without errors: helper and wrapper code for that format was not observed")
+		}
+	}
 	r.Count("builds", int(st.builds))
 	r.Count("outputs_gated_by_acorn", int(st.gated))
 	r.Count("builds_with_reported_errors_skipped", int(st.errorsReported))
